@@ -6,8 +6,8 @@
  * Owned strings use vp_allocator: every block is exact-size, registered, and must be released exactly once; every history
  * ends with destroying all strings and vp_end().
  *
- * Entry points:  harness_view   one view operation            (-DOP=k)
- *                harness_str    one string constructor / observer from constructed strings  (-DOP=k)
+ * Entry points:  harness_view   one view operation (-DOP=k) or a set of them (-DOPSET=bitmask)
+ *                harness_str    one string constructor / observer / C-string mutator from constructed strings  (-DOP=k or -DOPSET=bitmask)
  *                harness_sub    sub_string with arbitrary (from,size): stops through FRG_ASSERT or returns a view inside the source
  *                harness_hist   histories of K mutating operations over two owned strings (-DK, -DH1/-DH2/-DH3: op code or -1 = all)
  * Without the -D constants (translator validation, native random runs) lengths and op codes are inputs. */
@@ -195,6 +195,13 @@ static void view_op(int op, uint8_t c, uint64_t from, uint64_t size, uint64_t id
 void harness_view(void) {
 	int op; uint8_t c; uint64_t from, size, idx;
 	sources();
+#ifdef OPSET
+	/* several operations in one query (bit k of OPSET = operation k): a constant loop, fresh scalar arguments for each operation */
+	for(op = 0; op < V_NOPS; op++) if((OPSET >> op) & 1) {
+		VP_INPUT(c); VP_INPUT(from); VP_INPUT(size); VP_INPUT(idx);
+		view_op(op, c, from, size, idx);
+	}
+#else
 	VP_INPUT(op); VP_INPUT(c); VP_INPUT(from); VP_INPUT(size); VP_INPUT(idx);
 #ifdef OP
 	op = OP;
@@ -206,6 +213,7 @@ void harness_view(void) {
 	if(op == V_CSTR) lca = ref_strlen(ca, la);
 	if(op == V_EQ_CSTR) lcb = ref_strlen(cb, lb);
 	view_op(op, c, from, size, idx);
+#endif
 	cstrings_unchanged_and_free();
 	sources_unchanged_and_free();
 	VP_WITNESS(0, "view operation executed");
@@ -330,6 +338,12 @@ static void str_op(int op, uint8_t c, uint64_t idx);
 void harness_str(void) {
 	int op; uint8_t c; uint64_t idx;
 	sources();
+#ifdef OPSET
+	for(op = 0; op < S_NOPS; op++) if((OPSET >> op) & 1) {
+		VP_INPUT(c); VP_INPUT(idx);
+		str_op(op, c, idx);
+	}
+#else
 	VP_INPUT(op); VP_INPUT(c); VP_INPUT(idx);
 #ifdef OP
 	op = OP;
@@ -341,6 +355,7 @@ void harness_str(void) {
 	if(op == S_CSTR || op == S_ALLOC_CSTR) lca = ref_strlen(ca, la);
 	if(op == S_ASSIGN_CSTR || op == S_APPEND_CSTR || op == S_COMPARE_CSTR || op == S_EQ_CSTR || op == S_NE_CSTR) lcb = ref_strlen(cb, lb);
 	str_op(op, c, idx);
+#endif
 	cstrings_unchanged_and_free();
 	sources_unchanged_and_free();
 	VP_WITNESS(0, "string operation executed");
